@@ -12,7 +12,6 @@ import (
 
 	avm "github.com/artela-network/artela-evm/vm"
 	"github.com/artela-network/aspect-core/djpm"
-	"github.com/artela-network/aspect-core/djpm/run"
 	atypes "github.com/artela-network/aspect-core/types"
 	"github.com/ethereum/go-ethereum/common"
 	"github.com/ethereum/go-ethereum/common/hexutil"
@@ -464,13 +463,16 @@ func init() {
 		}
 		return common.Address{}, nil
 	}
-	run.VerifJoinPoint = func(ctx context.Context, aspect common.Address, ver uint64, cut atypes.PointCut, gas uint64, block int64, contract common.Address, req proto.Message) ([]byte, uint64, error) {
-		h := hostOf(ctx)
-		if h == nil || h.JoinPoint == nil {
-			panic("verif: join point executed without a scripted host")
-		}
-		return h.JoinPoint(aspect, cut, gas, block, contract, req)
+	installRunnerHook()
+}
+
+// JoinPointOf forwards one Aspect execution to the scripted host of the context (used by the stub runner).
+func JoinPointOf(ctx context.Context, aspect common.Address, cut atypes.PointCut, gas uint64, block int64, contract common.Address, req proto.Message) ([]byte, uint64, error) {
+	h := hostOf(ctx)
+	if h == nil || h.JoinPoint == nil {
+		panic("verif: join point executed without a scripted host")
 	}
+	return h.JoinPoint(aspect, cut, gas, block, contract, req)
 }
 
 type AOpts struct {
